@@ -92,6 +92,9 @@ func cfgsFor(family string, reduced, quick bool) []Cfg {
 				for _, sc := range []string{"linear", "log2"} {
 					for _, rows := range []int{2, 5} {
 						out = append(out, Cfg{Scale: sc, Color: cu[0], Unicode: cu[1], Rows: rows, Extra: true}, Cfg{Scale: sc, Color: cu[0], Unicode: cu[1], Rows: rows, Extra: true, Sort: "text"})
+						if sc == "linear" { // max-dependent formatter, bars off and on, maximum not on line 0
+							out = append(out, Cfg{Scale: sc, Color: cu[0], Unicode: cu[1], Rows: rows, Format: exprFormat, Sort: "text"}, Cfg{Scale: sc, Color: cu[0], Unicode: cu[1], Rows: rows, Extra: true, Format: exprFormat, Sort: "text"})
+						}
 					}
 				}
 			}
@@ -103,7 +106,7 @@ func cfgsFor(family string, reduced, quick bool) []Cfg {
 					for _, extra := range []bool{false, true} {
 						for _, f := range []string{"", exprFormat} {
 							out = append(out, Cfg{Scale: sc, Color: cu[0], Unicode: cu[1], Rows: rows, Extra: extra, Format: f})
-							if extra { // bars shown: also a sort under which the largest value is not first
+							if extra || f != "" { // bars shown or a formatter that depends on the maximum: also a sort under which the largest value is not first
 								out = append(out, Cfg{Scale: sc, Color: cu[0], Unicode: cu[1], Rows: rows, Extra: extra, Format: f, Sort: "text"})
 							}
 						}
@@ -200,7 +203,7 @@ func wideCfgs(family string) []Cfg {
 		for lim := 0; lim <= 8; lim++ {
 			switch family {
 			case "histo":
-				out = append(out, Cfg{Scale: "linear", Color: cu[0], Unicode: cu[1], Rows: lim, Extra: true}, Cfg{Scale: "linear", Color: cu[0], Unicode: cu[1], Rows: lim, Extra: true, Sort: "text"})
+				out = append(out, Cfg{Scale: "linear", Color: cu[0], Unicode: cu[1], Rows: lim, Extra: true}, Cfg{Scale: "linear", Color: cu[0], Unicode: cu[1], Rows: lim, Extra: true, Sort: "text"}, Cfg{Scale: "linear", Color: cu[0], Unicode: cu[1], Rows: lim, Format: exprFormat, Sort: "text"})
 			case "bars":
 				if lim < 2 {
 					out = append(out, Cfg{Color: cu[0], Unicode: cu[1], Stacked: lim == 0})
@@ -398,6 +401,9 @@ func emit(w *runner.W, c Case, rep report) {
 	w.Add("cases_"+c.Family, 1)
 	if rep.otherRow > 0 {
 		w.Add("lines_showing_another_row_with_its_correct_number", int64(rep.otherRow))
+	}
+	if rep.staleMax > 0 {
+		w.Add("histo_formatter_max_is_running_maximum_of_earlier_renders", int64(rep.staleMax))
 	}
 	if rep.notDrawn > 0 {
 		w.Add("rows_not_drawn_by_final_render", int64(rep.notDrawn))
@@ -600,7 +606,7 @@ func rule(prop, tier string) string {
 		fmt.Fprintf(&sb, "%s len %d..%d x %d configs; ", ps.family, ps.minLen, ps.maxLen, len(cfgsFor(ps.family, ps.reduced, quick)))
 	}
 	fmt.Fprintf(&sb, "sample alphabets (NUL-separated): histo {%s}; bars {keys \"\",a,40-rune,ESC[31mqESC[0m x subkeys \"\",x,y x values none,0,-1,2^57,2^58}; table/heatmap/spark {columns \"\",a,bcd,escape-key x rows \"\",r,40-rune,escape-key x values none,0,-1,5,MaxInt64}; reduce {keys x values \"\",0,-1,5 with -g k={1} -a sum={sumi {.} {2}} -a last={2} -a n={sumi {.} 1}}. ", qs(histoSamples[:5]))
-	sb.WriteString("Configurations (full grids): histo scale{linear,log2,log10} x colour x unicode x -n{0,1,2,5} x -x x format{default,<{0}>} x sort{value, and text when bars are shown}; bars stacked/grouped x scale{unset,log2,log10 (grouped only)} x colour x unicode x format; table colour x (rows,cols) in {(0,0),(1,1),(2,2),(5,5),(1,5),(5,1),(0,5),(5,0)} x -x x format; heatmap scale x colour x unicode x those limits x {auto, --min 0 --max 2, --min 1, --min 5 --max 1}; spark scale x colour x unicode x limits x notruncate x format (quick tier: heatmap and spark without the limits (0,5),(5,0), heatmap without --min 1, spark default format only); reduce colour x 8 (rows,cols) limits. Reduced grids (used for the longest histories) are subsets: colour+unicode both on/off, linear+log2, 2-3 limit pairs. ")
+	sb.WriteString("Configurations (full grids): histo scale{linear,log2,log10} x colour x unicode x -n{0,1,2,5} x -x x format{default, expression <{0}|{1}|{2}> built by helpers.BuildFormatter (depends on value, min and max)} x sort{value, and text when bars are shown or the expression format is used}; bars stacked/grouped x scale{unset,log2,log10 (grouped only)} x colour x unicode x format; table colour x (rows,cols) in {(0,0),(1,1),(2,2),(5,5),(1,5),(5,1),(0,5),(5,0)} x -x x format; heatmap scale x colour x unicode x those limits x {auto, --min 0 --max 2, --min 1, --min 5 --max 1}; spark scale x colour x unicode x limits x notruncate x format (quick tier: heatmap and spark without the limits (0,5),(5,0), heatmap without --min 1, spark default format only); reduce colour x 8 (rows,cols) limits. Reduced grids (used for the longest histories) are subsets: colour+unicode both on/off, linear+log2, 2-3 limit pairs. ")
 	fmt.Fprintf(&sb, "Wide states: every non-empty subset of the key pool {%s}, one sample per key, limits 0..8. ", qs(widePool))
 	fmt.Fprintf(&sb, "Laws: termscaler Scale/Bucket/LengthVal/ScaleKeys for linear, log2, log10 over (val,min,max) in G^3, |G|=%d including Min/MaxInt64; termunicode BarWrite/HeatWrite/SparkWrite over %d unit values x colour x unicode x max length {0,1,2,7,50}. ", len(gridValues(quick)), len(unitGrid()))
 	sb.WriteString("non-trivial = the final render displayed at least one data row (and one column for the table families); for laws: at least three distinct scaled values / bar lengths")
@@ -619,7 +625,7 @@ func main() {
 				"only call patterns the commands produce are driven (e.g. HistoWriter.WriteForLine is never called with line == number of items; a scale is never combined with --stacked; row/column limits are >= 0)",
 				"judged are the lines the final render is responsible for (rows 0..n-1 of the displayed items, headers, more-notes); lines left over from an earlier render with more rows are not judged",
 				"visible width = runes outside SGR sequences (ESC [ digits ; m); double-width glyphs are not covered",
-				"the default formatter's text is taken from humanize.Hi itself (its correctness is C11); the expression formatter <{0}> is compared with an independent decimal rendering",
+				"the default formatter's text is taken from humanize.Hi itself (its correctness is C11); the expression formatter <{0}|{1}|{2}> is compared with an independent decimal rendering of (value, min, max): for tabulate and spark min/max must be the table's ComputeMinMax of the rendered state; for histogram and bargraph every judged line of the final render must have been formatted with the same (min, max) and max must not be below a displayed value (the renderers pass 0 and a running maximum that never decreases; how often it differs from the final maximum is counted, not judged)",
 				"row/column order is taken from the aggregator's Ordered*/ItemsSorted* calls with the command's default sorters (ordering is C13)",
 				"between two renders the aggregators fold commutatively, so only one order of the samples of a segment is executed",
 				"a render that neither returns within 10 s nor keeps its heap growth below 512 MiB is reported as a hang; the worker then stops (the goroutine cannot be killed)",
